@@ -23,29 +23,10 @@ var pending *hx.Violation
 var delivered map[common.Uint256]*types.Block
 var failedSwitch bool
 
-func coinbaseOK(b *types.Block) bool {
-	var sum common.Fixed64
-	for _, o := range b.Transactions[0].Outputs() {
-		sum += o.Value
-	}
-	var fees common.Fixed64
-	for _, tx := range b.Transactions[1:] {
-		var in, out common.Fixed64
-		for _, i := range tx.Inputs() {
-			if ref := sim.N.TxByID(regnet.ID(i.Previous.TxID)); ref != nil && int(i.Previous.Index) < len(ref.Outputs()) {
-				in += ref.Outputs()[i.Previous.Index].Value
-			}
-		}
-		for _, o := range tx.Outputs() {
-			out += o.Value
-		}
-		fees += in - out
-	}
-	return sum-fees == sim.N.Params.PowConfiguration.RewardPerBlock
-}
+func coinbaseOK(b *types.Block) bool { return !sim.IsBad(b) }
 
-// validHeight: height of b if b and all its ancestors were delivered and have a correct coinbase
-// (the only way the generator makes a block invalid), else -1.
+// validHeight: height of b if b and all its ancestors were delivered and are not bad blocks
+// (regnet.Sim.IsBad: the only way the generator makes a block invalid), else -1.
 func validHeight(b *types.Block) int {
 	for cur := b; ; {
 		if cur.Hash() == sim.N.Genesis.Hash() {
@@ -162,7 +143,7 @@ func tree(g *hx.Gen, idx int) {
 		for i := 0; i < length; i++ {
 			var b *types.Block
 			if i == bad {
-				b = h.Block(br, nil, regnet.MineOpts{ExtraReward: 1 + common.Fixed64(r.Intn(1000)), Miner: r.Intn(5)})
+				b = h.BadBlock(br)
 			} else {
 				b = h.HonestBlock(br, 2)
 			}
